@@ -155,6 +155,14 @@ type State struct {
 	frames    []*inlFrame
 	exempt    []string // key|base of arrays owned by monitors (never framed)
 	vararg    map[ssa.Value][]Val // element values of compiler-generated variadic argument arrays
+	spawned   []spawnRec          // goroutines started by `go` and not yet joined by WaitGroup.Wait
+}
+
+type spawnRec struct {
+	fn   *ssa.Function
+	fc   *FuncContract
+	fnv  Val
+	args []Val
 }
 
 func (s *State) clone() *State {
@@ -194,6 +202,7 @@ func (s *State) clone() *State {
 	}
 	n.frames = append([]*inlFrame(nil), s.frames...)
 	n.exempt = s.exempt
+	n.spawned = append([]spawnRec(nil), s.spawned...)
 	if s.vararg != nil {
 		n.vararg = make(map[ssa.Value][]Val, len(s.vararg))
 		for k, v := range s.vararg {
